@@ -71,32 +71,33 @@ inline std::string show(const XQ& x) {
   if (x.k == XQ::NaN) return "nan"; if (x.k == XQ::MINF) return "-inf"; if (x.k == XQ::PINF) return "+inf";
   std::string s = x.q.get_str(); return x.root ? "sqrt(" + s + ")" : s;
 }
-// compare exact e (may be a root) with a rational/infinite s (never a root). 2 = incomparable.
+inline int sg3(int c) { return (c > 0) - (c < 0); }
+// compare exact e (may be a root) with a rational/infinite s (never a root): -1, 0, 1, or 2 = incomparable.
 inline int xcmp(const XQ& e, const XQ& s) {
   if (e.nan() || s.nan()) return 2;
   if (e.k == XQ::MINF) return s.k == XQ::MINF ? 0 : -1;
   if (e.k == XQ::PINF) return s.k == XQ::PINF ? 0 : 1;
   if (s.k == XQ::MINF) return 1;
   if (s.k == XQ::PINF) return -1;
-  if (!e.root) return cmp(e.q, s.q);
+  if (!e.root) return sg3(cmp(e.q, s.q));
   if (::sgn(s.q) < 0) return 1;
-  Q s2 = s.q * s.q; return cmp(e.q, s2);
+  Q s2 = s.q * s.q; return sg3(cmp(e.q, s2));
 }
 inline int xcmp(const XQ& e, const Q& s) {
   if (e.nan()) return 2; if (e.k == XQ::MINF) return -1; if (e.k == XQ::PINF) return 1;
-  if (!e.root) return cmp(e.q, s);
+  if (!e.root) return sg3(cmp(e.q, s));
   if (::sgn(s) < 0) return 1;
-  Q s2 = s * s; return cmp(e.q, s2);
+  Q s2 = s * s; return sg3(cmp(e.q, s2));
 }
 
 enum Undef { U_NONE = 0, U_NAN_OPERAND, U_INF_ADD_INF, U_INF_SUB_INF, U_INF_MUL_ZERO, U_DIV_ZERO, U_INF_DIV_INF, U_INF_MOD, U_MOD_ZERO, U_SQRT_NEG, U_SILENT };
 static const char* const UNDEF_NAME[] = { "defined", "nan-operand", "inf+(-inf)", "inf-inf", "inf*0", "div-by-zero", "inf/inf", "inf-mod", "mod-zero", "sqrt-neg", "doc-silent" };
 struct Ex {
-  XQ v; Undef u; bool has_prod; XQ prod;
-  Ex() : u(U_NONE), has_prod(false) {}
-  explicit Ex(const XQ& x) : v(x), u(U_NONE), has_prod(false) {}
-  explicit Ex(const Q& x) : v(x), u(U_NONE), has_prod(false) {}
-  explicit Ex(Undef uu) : v(xnan()), u(uu), has_prod(false) {}
+  XQ v; Undef u; bool has_prod; XQ prod; bool acc_inf;   // fused ops: the intermediate product, and whether the accumulator was infinite
+  Ex() : u(U_NONE), has_prod(false), acc_inf(false) {}
+  explicit Ex(const XQ& x) : v(x), u(U_NONE), has_prod(false), acc_inf(false) {}
+  explicit Ex(const Q& x) : v(x), u(U_NONE), has_prod(false), acc_inf(false) {}
+  explicit Ex(Undef uu) : v(xnan()), u(uu), has_prod(false), acc_inf(false) {}
 };
 inline Result undef_code(Undef u) {
   switch (u) { case U_NAN_OPERAND: return V_NAN; case U_INF_ADD_INF: return V_INF_ADD_INF; case U_INF_SUB_INF: return V_INF_SUB_INF; case U_INF_MUL_ZERO: return V_INF_MUL_ZERO;
@@ -178,7 +179,7 @@ inline Ex ex_fused(const XQ& to, const XQ& a, const XQ& b, bool sub) {
   if (to.nan() || a.nan() || b.nan()) return Ex(U_NAN_OPERAND);
   Ex p = ex_mul(a, b); if (p.u != U_NONE) return p;
   Ex r = sub ? ex_sub(to, p.v) : ex_add(to, p.v);
-  r.has_prod = true; r.prod = p.v; return r;
+  r.has_prod = true; r.prod = p.v; r.acc_inf = to.inf(); return r;
 }
 
 // ---------------------------------------------------------------- decoding stored values (independent of PPL's predicates)
